@@ -329,6 +329,23 @@ def checkCC (idx : List Tri) (c : CC) : Option String :=
   let expGrouped := (List.range ncol).flatMap fun k => (List.range n).filter fun f => c.faceColors.getD f 0 == k
   if c.groupedFaces != expGrouped then some "grouped_faces" else none
 
+/-- what the cleaning flags promise about the buffers themselves (a fresh build would enforce it again):
+no degenerate triangle under `DELETE_DEGENERATE_TRIANGLES`, no two triangles on the same three vertices under
+`DELETE_DUPLICATE_TRIANGLES`, a half-edge-compatible index buffer under `DELETE_BAD_TOPOLOGY_TRIANGLES`, pairwise
+distinct vertices under any of the merging flags -/
+def checkBuffers (s : OState) : Option String :=
+  let coordEq (i j : Nat) : Bool := match s.coords[i]?, s.coords[j]? with
+    | some p, some q => p.length == q.length && (p.zip q).all fun (x, y) => x == y
+    | _, _ => false
+  let sorted (t : Tri) : List Nat := let l := [t.a, t.b, t.c]; (l.mergeSort (· ≤ ·))
+  if s.flags.delDegen && s.idx.any (fun t => triDegenerate t || coordEq t.a t.b || coordEq t.a t.c || coordEq t.b t.c) then
+    some "spec:B degenerate-triangle-under-DELETE_DEGENERATE" else
+  if s.flags.delDup && (s.idx.zipIdx.any fun (t, i) => s.idx.zipIdx.any fun (t', j) => i < j && sorted t == sorted t') then
+    some "spec:B duplicate-triangle-under-DELETE_DUPLICATE" else
+  if s.flags.delBad && !topoOk s.idx then some "spec:B bad-topology-triangle-under-DELETE_BAD_TOPOLOGY" else
+  if s.flags.mergeFamily && ((List.range s.nv).any fun i => (List.range s.nv).any fun j => i < j && coordEq i j) then
+    some "spec:B duplicate-vertex-under-MERGE" else none
+
 def specCheck (dim3 : Bool) (s : OState) : Option String :=
   -- presence
   let wantT := s.flags.topoFamily && topoOk s.idx
@@ -377,12 +394,13 @@ def judgeState (dim3 : Bool) (s : OState) : Option String :=
     | some d => match diffDerived s.d d with
       | [] => none
       | fs => some ("differs-from-fresh(L) fields=" ++ ",".intercalate fs)
-  match g, l, specCheck dim3 s, checkBox (if dim3 then 3 else 2) s with
-  | some e, _, _, _ => some e
-  | _, some e, _, _ => some e
-  | _, _, some e, _ => some e
-  | _, _, _, some e => some e
-  | _, _, _, _ => none
+  match g, l, specCheck dim3 s, checkBox (if dim3 then 3 else 2) s, checkBuffers s with
+  | some e, _, _, _, _ => some e
+  | _, some e, _, _, _ => some e
+  | _, _, some e, _, _ => some e
+  | _, _, _, some e, _ => some e
+  | _, _, _, _, some e => some e
+  | _, _, _, _, _ => none
 
 def splitSegs (toks : List String) : List (List String) :=
   let r := toks.foldl (fun (acc : List (List String) × List String) t =>
